@@ -183,6 +183,7 @@ theorem run_pframe (ρ : List FunDef) : ∀ (f : Nat) (j : Job) (s : St), PFrame
         · exact pframe_alloc _ _ _ _
       | assignDecl x e =>
         simp only [run]
+        refine withFnCall_pframe _ _ (fun s0 _ => ?_)
         refine bnd_pframe _ _ _ (ih _ _) (fun l t => ?_)
         have htag : PFrame t (tagParamAlias e t l) := by
           unfold tagParamAlias
